@@ -127,8 +127,11 @@ class Standardize(PostProcessor):
     def _sanitize_stats(self, checked_other_float: bool = False):
         try:
             self._stats = self._stats.reshape((2, -1))
-            valid = np.isclose(np.round(self._stats[0, -1]), self._stats[0, -1])
-            valid &= np.all(self._stats >= 0)
+            # the count is a non-negative whole number and the sums of squares are
+            # non-negative. The sums themselves may have any sign (e.g. log-energies)
+            count = self._stats[0, -1]
+            valid = np.isclose(np.round(count), count) and count >= 0
+            valid &= np.all(self._stats[1] >= 0)
         except ValueError:
             # in this case we couldn't reshape to (2, -1).
             valid = False
